@@ -74,19 +74,7 @@ def run(ctx, chk):
             elif w == 2 and rule in ("guard", "offset", "bytes"):
                 chk.ob("C15.half-total", inst, ok, where, fn=n, detail=detail)
     # decode side
-    for n, ity, fty, il in (("_cbor_load_float", "i32", "float", "_cbor_load_uint32"), ("_cbor_load_double", "i64", "double", "_cbor_load_uint64")):
-        f = prog.fn(n)
-        ps = cache.get(n)
-        ok = len(ps) == 1
-        det = ""
-        if ok:
-            r = ps[0].ret
-            ok = r[0] == "reinterpret" and r[1] == fty and r[2][0] == "call" and r[2][1] == il
-            if ok:
-                ce = [e for e in ps[0].events if e.kind == "call" and e.res == r[2]][0]
-                ok = ce.args[0] == ("arg", 0)
-            det = "" if ok else "returns %r" % (r,)
-        chk.ob("C15.bits-decode", n, ok, "%s:%d" % (f.file, f.line), fn=n, detail=det)
+    check_bits_decode(chk, "C15.bits-decode", prog, cache)
     # no conversion instructions
     for n in MOVERS:
         f = prog.fn(n)
@@ -214,13 +202,33 @@ def run(ctx, chk):
     chk.exhaustive = True
 
 
+def check_bits_decode(chk, rule, prog, cache):
+    """the 4- and 8-byte float loaders hand on the bit pattern they read: the result is the reinterpretation of the big-endian
+    integer loader of the same width applied to the same pointer (however it is spelled: union, memcpy, cast through char*)"""
+    for n, ity, fty, il in (("_cbor_load_float", "i32", "float", "_cbor_load_uint32"), ("_cbor_load_double", "i64", "double", "_cbor_load_uint64")):
+        f = prog.fn(n)
+        ps = cache.get(n)
+        ok = len(ps) == 1
+        det = ""
+        if ok:
+            r = ps[0].ret
+            ok = r[0] == "reinterpret" and r[1] == fty and r[2][0] == "call" and r[2][1] == il
+            if ok:
+                ce = [e for e in ps[0].events if e.kind == "call" and e.res == r[2]][0]
+                ok = ce.args[0] == ("arg", 0)
+            det = "" if ok else "returns %r" % (r,)
+        else:
+            det = "%d paths: the value is computed, not moved" % len(ps)
+        chk.ob(rule, n, ok, "%s:%d" % (f.file, f.line), fn=n, detail=det[:300])
+
+
 def check_half_classes(chk, prog, eff, prefix="C15"):
     import termeval
     f = prog.fn("_cbor_decode_half")
     where = "%s:%d" % (f.file, f.line)
-    ps = P.Executor(prog, eff).run(f.name)
-    if f.back_edges():
-        raise AnalysisBroken("_cbor_decode_half contains a loop")
+    # a normalisation loop over the 10-bit mantissa is unrolled completely (a pattern that no unrolled path serves is
+    # reported as unserved, never passed)
+    ps = P.Executor(prog, eff, loop_bound=11 if f.back_edges() else 1).run(f.name)
     SRC = ("arg", 0)
     # leaves: the two input bytes
     hi_t = lo_t = None
@@ -259,6 +267,15 @@ def check_half_classes(chk, prog, eff, prefix="C15"):
             return "const", neg
         if isinstance(r, tuple) and r[0] == "call" and r[1] == "ldexp":
             return "scaled", neg
+        if isinstance(r, tuple) and r[0] == "reinterpret" and r[1] == "float":
+            # the single-precision bit pattern is assembled with integer operations: evaluated per pattern
+            try:
+                bits = termeval.evaluate(r[2], env, {}) & 0xFFFFFFFF
+            except AnalysisBroken:
+                return "other", neg       # the bits go through floating-point arithmetic: not an integer assembly
+            if neg:
+                bits ^= 0x80000000
+            return ("bits", bits), False
         return "other", neg
     facts = []
     for pa in ps:
@@ -285,6 +302,23 @@ def check_half_classes(chk, prog, eff, prefix="C15"):
             continue
         kind, neg = action(ps[match[0]], env)
         s_, e_, m_ = H >> 15, (H >> 10) & 31, H & 1023
+        if isinstance(kind, tuple) and kind[0] == "bits":
+            ref = half_to_float_bits(H)
+            got_b = kind[1]
+            want = ("inf" if m_ == 0 else "nan") if e_ == 31 else "scaled"
+            if want == "nan":
+                ok = (got_b >> 23) & 0xFF == 0xFF and got_b & 0x7FFFFF != 0
+            else:
+                ok = got_b == ref
+            counts[want] = counts.get(want, 0) + 1
+            if want == "scaled":
+                nval += 1
+                if not ok and len(badval) < 6:
+                    badval.append("pattern %04x (exponent %d, mantissa %d): assembled single-precision bits 0x%08x, IEEE-754 value is 0x%08x"
+                                  % (H, e_, m_, got_b, ref))
+            elif not ok and len(bad) < 6:
+                bad.append("pattern %04x must be %s%s; assembled bits 0x%08x" % (H, "-" if s_ and want != "nan" else "", want, got_b))
+            continue
         if e_ == 31:
             want = "inf" if m_ == 0 else "nan"
             ok = kind == want and (neg == bool(s_) or want == "nan")
